@@ -249,6 +249,74 @@ inductive Ty where
       -- `Field(length=.., max_length=.., min_length=..)` on a container type; `(n, true)` = `Lax(n)`
   deriving Repr, Inhabited
 
+/-- the converters of `TypeTransformer.registry` (transform.py `@registry.register(...)`, rule.py, cls.py) -/
+inductive Cid where
+  | any | int | array | dict | bytes | rule | union | data
+  deriving DecidableEq, Repr
+
+/-- what the registry answers for a type from its registrations alone (no cache): `TypeRegistry.resolve`, base.py -/
+def sel : Ty → Cid
+  | .any => .any
+  | .int => .int
+  | .bare .dict => .dict
+  | .bare (.opq 0) => .bytes
+  | .bare _ => .array
+  | .seq .. => .rule
+  | .map _ => .rule
+  | .tup _ => .rule
+  | .con .. => .rule
+  | .opt _ => .union
+  | .data _ => .data
+
+mutual
+/-- the same type object (the registry cache is keyed by the type) -/
+def Ty.same : Ty → Ty → Bool
+  | .any, .any => true
+  | .int, .int => true
+  | .bare k, .bare k' => k == k'
+  | .seq k t, .seq k' t' => k == k' && t.same t'
+  | .map t, .map t' => t.same t'
+  | .tup ts, .tup ts' => sameL ts ts'
+  | .opt t, .opt t' => t.same t'
+  | .data k, .data k' => k == k'
+  | .con t a b c, .con t' a' b' c' => t.same t' && a == a' && b == b' && c == c'
+  | _, _ => false
+def sameL : List Ty → List Ty → Bool
+  | [], [] => true
+  | t :: ts, t' :: ts' => t.same t' && sameL ts ts'
+  | _, _ => false
+end
+
+mutual
+/-- every data class a type mentions has an index below `n` (is declared) -/
+def Ty.scoped (n : Nat) : Ty → Bool
+  | .data k => k < n
+  | .seq _ t => t.scoped n
+  | .map t => t.scoped n
+  | .opt t => t.scoped n
+  | .con t _ _ _ => t.scoped n
+  | .tup ts => scopedL n ts
+  | _ => true
+def scopedL (n : Nat) : List Ty → Bool
+  | [] => true
+  | t :: ts => t.scoped n && scopedL n ts
+end
+
+/-- Process-wide state a parse reads and leaves behind (besides the declarations themselves):
+* `regCache` — `TypeRegistry._cache` (base.py): type ↦ converter, filled by every lookup;
+* `resolved` — the parsers whose pending forward references have been resolved (`BaseParser.resolve_forward_refs`,
+  run lazily at the start of a parser's first successful call; `forward_refs` is emptied). -/
+structure Proc where
+  regCache : List (Ty × Cid) := []
+  resolved : List Nat := []
+  deriving Repr
+
+/-- `TypeRegistry.resolve(t)`: the cached answer if there is one, else the registrations' answer -/
+def Proc.resolve (p : Proc) (t : Ty) : Cid :=
+  match p.regCache.find? (fun e => e.1.same t) with
+  | some e => e.2
+  | Option.none => sel t
+
 inductive Dflt where
   | none                       -- required
   | val (d : Val)              -- `Field(default=d)` / `name: T = d`
@@ -305,6 +373,10 @@ structure Decl where
   deriving Repr
 
 abbrev Env := List Decl
+
+/-- all forward references of the declaration are to declared classes -/
+def Decl.scoped (n : Nat) (d : Decl) : Bool :=
+  d.fields.all (fun f => f.ty.scoped n) && (match d.ret with | some (_, t) => t.scoped n | Option.none => true)
 
 def Dflt.vals : Dflt → List Val
   | .val d => [d]
@@ -618,8 +690,15 @@ def unorderedSrc : Val → Bool
   | .node _ k' _ its => k'.isSet && its.length > 1
   | _ => false
 
+/-- `TypeTransformer.__call__` (transform.py): a field value is converted by the converter the registry answers for
+the field's type (`resolver_transformer(t)`); `L` is that lookup.  Inside a `Rule` type the element converters were
+bound when the class was created (`__arg_transformers__`), so `conv` recurses without another lookup.  Should the
+registry answer with a converter other than the type's own, the model does not say what happens. -/
+def guardL (L : Ty → Cid) (f : Ty → Val → Comp) : Ty → Val → Comp := fun ty v s =>
+  if L ty == sel ty then f ty v s else (.error (.unmodelled "the registry answered with another converter"), s)
+
 /-- The type transformer on the modelled fragment.  `fuel` bounds the nesting of data classes and types. -/
-def conv (E : Env) (o : Opts) : Nat → Ty → Val → Comp
+def conv (L : Ty → Cid) (E : Env) (o : Opts) : Nat → Ty → Val → Comp
   | 0, _, _ => fun s => (.error .fuel, s)
   | fuel + 1, ty, v => fun s =>
     match ty with
@@ -632,7 +711,7 @@ def conv (E : Env) (o : Opts) : Nat → Ty → Val → Comp
         | (.error e, s1) => (.error e, s1)
         | (.ok (.node _ _ _ items), s1) =>
             -- `result = []` … `result.append(apply(item, ..))` for every item
-            match newThenFill .list (fun s2 => match mapC (conv E o fuel t) items s2 with
+            match newThenFill .list (fun s2 => match mapC (conv L E o fuel t) items s2 with
                 | (.error e, s3) => (.error e, s3)
                 | (.ok items', s3) => (.ok ([], items'), s3)) s1 with
             | (.error e, s3) => (.error e, s3)
@@ -645,7 +724,7 @@ def conv (E : Env) (o : Opts) : Nat → Ty → Val → Comp
         | (.error e, s1) => (.error e, s1)
         | (.ok (.node _ _ keys items), s1) =>
             -- `result = {}` … `result[key] = val` for every entry
-            newThenFill .dict (fun s2 => match mapC (conv E o fuel t) items s2 with
+            newThenFill .dict (fun s2 => match mapC (conv L E o fuel t) items s2 with
                 | (.error e, s3) => (.error e, s3)
                 | (.ok items', s3) => (.ok (keys, items'), s3)) s1
         | (.ok _, s1) => (.error (.unmodelled "origin transform returned an atom"), s1)
@@ -655,7 +734,7 @@ def conv (E : Env) (o : Opts) : Nat → Ty → Val → Comp
         | (.error e, s1) => (.error e, s1)
         | (.ok (.node _ _ _ items), s1) =>
             -- `result = []` … `result.append(..)` per prefix item, then `cls.__origin__(result)`
-            match newThenFill .list (fun s2 => match zipC (conv E o fuel) ts items s2 with
+            match newThenFill .list (fun s2 => match zipC (conv L E o fuel) ts items s2 with
                 | (.error e, s3) => (.error e, s3)
                 | (.ok items', s3) => (.ok ([], items'), s3)) s1 with
             | (.error e, s3) => (.error e, s3)
@@ -663,22 +742,22 @@ def conv (E : Env) (o : Opts) : Nat → Ty → Val → Comp
         | (.ok _, s1) => (.error (.unmodelled "origin transform returned an atom"), s1)
     | .con t lg mx mn =>
         -- Rule.parse (rule.py:1681-1749): transform to the origin (+ args), then the validators on the result
-        match conv E o fuel t v s with
+        match conv L E o fuel t v s with
         | (.error e, s1) => (.error e, s1)
         | (.ok r, s1) => applyCons lg mx mn r s1
     | .opt t =>
         match v with
         | .none => (.ok .none, s)                                     -- exact type NoneType
-        | _ => conv E o fuel t v s                                    -- first union stage that accepts
+        | _ => conv L E o fuel t v s                                    -- first union stage that accepts
     | .data k =>
         match v with
         | .node _ (.inst k') _ _ =>
             if k' == k then (.ok v, s)                                -- `type(data) == t`: the instance itself
             else (.error (.unmodelled "instance of another class"), s)
         -- `init_dataclass`: the class parses with its *own* options (`parser.make_context(context=..)`, options.py:216-222)
-        | .node _ .dict keys items => initWith (conv E {} fuel) {} E k keys items s
+        | .node _ .dict keys items => initWith (guardL L (conv L E {} fuel)) {} E k keys items s
         | .node _ k' _ items =>
-            if (k' == .list || k' == .tuple) && items.isEmpty then initWith (conv E {} fuel) {} E k [] [] s   -- `to_dict([])`
+            if (k' == .list || k' == .tuple) && items.isEmpty then initWith (guardL L (conv L E {} fuel)) {} E k [] [] s   -- `to_dict([])`
             else (.error (.unmodelled "data class from a sequence/opaque"), s)
         | _ => (.error .perr, s)
 
@@ -705,11 +784,14 @@ def declaredOpts (ws : List (Option Opts)) (j : Nat) : Opts := (ws[j]?.getD Opti
 
 /-- One parse through the public API.  `target` is a class (instance creation) or a decorated function
 (arguments passed positionally or by name); `keys/items` are the entries of the caller's dict. -/
-def callWith (optsOf : List (Option Opts) → Nat → Opts) (ro : ROpts) (E : Env) (target : Nat) (wrapper : Nat)
-    (keys : List String) (items : List Val) : Comp := fun s =>
+def callWith (optsOf : List (Option Opts) → Nat → Opts) (L : Ty → Cid) (resolvedBefore : Bool) (ro : ROpts) (E : Env)
+    (target : Nat) (wrapper : Nat) (keys : List String) (items : List Val) : Comp := fun s =>
   match E[target]? with
   | Option.none => (.error (.unmodelled "no such target"), s)
   | some d =>
+    -- `BaseParser.__call__`: `self.resolve_forward_refs(ignore_errors=False)` — nothing to do when the parser resolved
+    -- its references in an earlier call (`forward_refs` is empty), else every referenced class has to exist now
+    if !resolvedBefore && !d.scoped E.length then (.error (.unmodelled "forward reference to an undeclared class"), s) else
     if d.kind == .func then
       let o := optsOf d.wrappers wrapper
       -- positional arguments are looked up by position, the rest by name; both go through `parse_value`,
@@ -718,7 +800,7 @@ def callWith (optsOf : List (Option Opts) → Nat → Opts) (ro : ROpts) (E : En
       -- parameters through the same `get_params`/`parse_params`, and differ only in when that happens (at the call
       -- when `eager`, else at the first `await` / `next`): `fkind` and `eager` do not enter the outcome.
       -- `parse_params`: `parsed_kwargs = self.parse_data(kwargs, ..)` — a result dict like any other
-      match parseInto (conv E o fuelDefault) {} { d with dfs := false } keys items s with
+      match parseInto (guardL L (conv L E o fuelDefault)) {} { d with dfs := false } keys items s with
       | (.error e, s1) => (.error e, s1)
       | (.ok pk, s1) =>
         let vals := (itemsOf pk).1.zip (itemsOf pk).2
@@ -729,12 +811,12 @@ def callWith (optsOf : List (Option Opts) → Nat → Opts) (ro : ROpts) (E : En
           match lookupKV fname (vals.map (·.1)) (vals.map (·.2)) with
           | Option.none => mkBinding vals s1
           | some v =>
-            match conv E o fuelDefault ty v s1 with
+            match guardL L (conv L E o fuelDefault) ty v s1 with
             | (.error e, s2) => (.error e, s2)
             | (.ok _, s2) => mkBinding vals s2
-    else initWith (conv E {} fuelDefault) ro E target keys items s
+    else initWith (guardL L (conv L E {} fuelDefault)) ro E target keys items s
 
-def call := callWith effectiveOpts {}
+def call := callWith effectiveOpts sel false {}
 
 /-! ### in-place mutation by the caller, `setattr`, `Schema.copy()` -/
 
@@ -833,6 +915,7 @@ structure World where
   env : Env
   next : Nat
   roots : List (Option Val) := []          -- inputs and results, in creation order
+  proc : Proc := {}                        -- registry cache, resolved forward references
   deriving Repr
 
 def Dflt.write (i : Nat) (f : Kind → List String → List Val → Option (List String × List Val)) : Dflt → Dflt
@@ -900,17 +983,32 @@ def clobber : Kind → List String → List Val → Option (List String × List 
 /-- apply the call's logged in-place writes to everything that existed before the call -/
 def World.applyWrites (w : World) (writes : List Nat) : World := writes.foldl (fun w i => w.writeAll i clobber) w
 
+/-- the parse as the world runs it: lookups through the registry cache as it is now, forward references resolved or not -/
+def World.callP (w : World) (optsOf : List (Option Opts) → Nat → Opts) (target wrapper bump : Nat) (input : Val)
+    (ro : ROpts) : Res × St :=
+  callWith optsOf w.proc.resolve (w.proc.resolved.contains target) ro w.env target wrapper
+    (entriesOf input).1 (entriesOf input).2 { next := w.next + bump }
+
+/-- what a parse of `target` leaves in the process state: the registry cache remembers what it answered for the field
+types it was asked about; the parser has resolved its forward references if they could all be resolved -/
+def World.procAfter (w : World) (target : Nat) : Proc :=
+  match w.env[target]? with
+  | Option.none => w.proc
+  | some d =>
+    { regCache := d.fields.map (fun f => (f.ty, w.proc.resolve f.ty)) ++ w.proc.regCache,
+      resolved := if d.scoped w.env.length then target :: w.proc.resolved else w.proc.resolved }
+
 def World.stepWith (cp : Val → Comp) (optsOf : List (Option Opts) → Nat → Opts) (w : World) : Op → World × Outcome
   | .declare d bump => ({ w with env := w.env ++ [d], next := w.next + bump }, .ok)
   | .call target wrapper bump input ro =>
       let s : St := { next := w.next + bump }
-      match callWith optsOf ro w.env target wrapper (entriesOf input).1 (entriesOf input).2 s with
+      match w.callP optsOf target wrapper bump input ro with
       | (.ok r, s1) =>
           let w1 := { w with roots := w.roots ++ [some input] }.applyWrites s1.writes
-          ({ w1 with next := s1.next, roots := w1.roots ++ [some r] }, .ok)
+          ({ w1 with next := s1.next, roots := w1.roots ++ [some r], proc := w.procAfter target }, .ok)
       | (.error e, s1) =>
           let w1 := { w with roots := w.roots ++ [some input] }.applyWrites s1.writes
-          ({ w1 with next := s1.next, roots := w1.roots ++ [Option.none] }, .ofErr e)
+          ({ w1 with next := s1.next, roots := w1.roots ++ [Option.none], proc := w.procAfter target }, .ofErr e)
   | .mutate i act => (w.writeAll i act.apply, .ok)
   | .setattr r fname v =>
       match w.root r with
